@@ -464,7 +464,7 @@ def _fc_model_value(ast, cer):
     return (left and right) if kind == "and" else (left or right) if kind == "or" else (left != right)
 
 
-def _direct_clause(request, outcome, world):
+def _direct_clause(request, outcome, world, probes=None):
     """the pairing clause that can be stated without a reference run; returns None or a description"""
     if "ok" not in outcome:
         return None
@@ -513,6 +513,8 @@ def _direct_clause(request, outcome, world):
         except _NoModel:
             values = []
         if values and all(isinstance(v, bool) for v in values):
+            if probes is not None:
+                probes["model_clause_applied"] = probes.get("model_clause_applied", 0) + 1
             chosen = next((i for i, v in enumerate(values) if v), len(values) - 1)
             inner = result if op["op"] == "rc_eval" else (result or {}).get("requirement_constraint_evaluation_result")
             got = inner.get("requirement_constraints_fulfilled") if isinstance(inner, dict) else "?"
@@ -532,6 +534,8 @@ def _direct_clause(request, outcome, world):
         except _NoModel:
             value = None
         got = result.get("format_constraints_fulfilled") if isinstance(result, dict) else "?"
+        if value is not None and probes is not None:
+            probes["fc_model_clause_applied"] = probes.get("fc_model_clause_applied", 0) + 1
         if value is not None and got is not value:
             verdicts = {k: v["format_constraint_fulfilled"] for k, v in cer["format_constraints"].items()}
             return (f"{op['expr']!r} with {verdicts}: format_constraints_fulfilled is {got!r}, the keys' own verdicts "
@@ -570,7 +574,11 @@ def execute(scenario):
         rid = request["rid"]
         outcome = {k: v for k, v in outcomes.get(rid, {"missing": True}).items() if k != "msg"}
         kind = request["op"]["op"]
-        problem = _direct_clause(request, outcome, scenario["world"])
+        problem = _direct_clause(request, outcome, scenario["world"], verdict["probes"])
+        if len(request["op"].get("keys") or []) > 16 or len(keys_of(to_tuple(request["op"]["ast"])) if request["op"].get(
+                "ast") else []) > 16:
+            verdict["probes"]["more_than_16_keys_at_one_site"] = verdict["probes"].get(
+                "more_than_16_keys_at_one_site", 0) + 1
         if problem:
             fail(verdict, f"pairing:{kind}", f"{rid}: {problem}")
         expects_exception = bool(request["op"].get("drop")) or (
